@@ -22,7 +22,7 @@ func init() {
 			"freshly built instance; every output vector and (bool, error) result in Q must be bit-identical, and after the flush all per-node " +
 			"state read through the verif accessors must be clean. evaluations = (P,Q) pairs. A pair is non-trivial if the network is " +
 			"recurrent or modular and P changed the outputs; distinct by (topology, programs) fingerprint.",
-		Assumptions: []string{"both instances are built from the same description by the same constructor path"},
+		Assumptions: []string{"both instances are built from the same description by the same constructor path; in a third of the fast-solver pairs the new instance is a second solver handed out by the used solver's own network object"},
 		Cases: func(tier string) int {
 			if tier == "quick" {
 				return 3200
